@@ -95,16 +95,13 @@ fn make_variant(rng: &mut Rng, base: &Problem, st0: &DefaultSettings<f64>) -> Va
         (0..n).collect()
     };
     // --- objective scaling
-    let mut cscale = if rng.bool(0.4) {
+    let cscale = if rng.bool(0.4) {
         tags.push("objective_scaled");
         *rng.choose(&[0.5, 2.0, 10.0, 0.01, 1e6, 1e-6, 1e4])
     } else {
         1.0
     };
-    // configuration first: extreme objective scales are only combined with equilibration ON.  With
-    // equilibration off, a 1e6-fold objective turns the documented, scale-dependent infeasibility test into
-    // a false DualInfeasible on feasible problems (observed: seed 1, case 489) - the user has then handed
-    // over a badly scaled problem and disabled the mechanism meant to cope with it
+    // configuration first (so that the data transformations below can depend on it if ever needed)
     let mut st = st0.clone();
     if rng.bool(0.5) {
         st.presolve_enable = !st.presolve_enable;
@@ -113,9 +110,6 @@ fn make_variant(rng: &mut Rng, base: &Problem, st0: &DefaultSettings<f64>) -> Va
     if rng.bool(0.4) {
         st.equilibrate_enable = !st.equilibrate_enable;
         tags.push("equilibration_toggled");
-    }
-    if !st.equilibrate_enable && !(0.005..=20.0).contains(&cscale) {
-        cscale = if cscale > 1.0 { 10.0 } else { 0.01 };
     }
     let mut a = Dense::zeros(m, n);
     let mut apat = vec![false; m * n];
@@ -151,6 +145,8 @@ struct Mapped {
     tags: Vec<&'static str>,
     /// inf-norm of the first observed iterate (x,s,z)/tau, i.e. of the solver's initial point
     init_norm: f64,
+    cscale: f64,
+    equilibrated: bool,
 }
 
 fn map_back(v: &Variant, r: &SolveResult, n: usize, m: usize) -> Option<Mapped> {
@@ -168,7 +164,7 @@ fn map_back(v: &Variant, r: &SolveResult, n: usize, m: usize) -> Option<Mapped> 
         z[v.rowmap[i]] = r.z[i] / v.cscale;
     }
     let init_norm = r.events.first().map(|e| e.x.iter().chain(&e.s).chain(&e.z).fold(0.0f64, |m, v| if v.is_finite() { m.max(v.abs()) } else { f64::INFINITY })).unwrap_or(0.0);
-    Some(Mapped { status: r.status, x, s, z, tags: v.tags.clone(), init_norm })
+    Some(Mapped { status: r.status, x, s, z, tags: v.tags.clone(), init_norm, cscale: v.cscale, equilibrated: v.st.equilibrate_enable })
 }
 
 struct Terms {
@@ -285,7 +281,15 @@ fn w_variants(ctx: &mut Ctx) {
                 if verdict_class(r.status) == 'S' {
                     let want = t.p.f();
                     let got = r.obj_val / v.cscale;
-                    if !((got - want).abs() <= 1e-9 * want.abs().max(1.0) + 1e-9 * (base.q.iter().zip(&mp.x).map(|(a, b)| (a * b).abs()).sum::<f64>())) {
+                    // magnitude of the terms that are summed (linear and quadratic): cancellation among them
+                    // bounds the rounding of either evaluation
+                    let mut mag = base.q.iter().zip(&mp.x).map(|(a, b)| (a * b).abs()).sum::<f64>();
+                    for j in 0..n {
+                        for k in 0..n {
+                            mag += 0.5 * (ps.get(j, k) * mp.x[j] * mp.x[k]).abs();
+                        }
+                    }
+                    if !((got - want).abs() <= 1e-9 * want.abs().max(1.0) + 1e-9 * mag) {
                         ctx.violation("mapped_back_objective", "mapped_back_objective", wl, case, json!({"base": base.to_json(), "variant_tags": v.tags, "reported_over_c": got, "recomputed_on_original": want}));
                     }
                 }
@@ -302,14 +306,22 @@ fn w_variants(ctx: &mut Ctx) {
                     // a problem that is both primal and dual infeasible admits either certificate
                     ctx.bump("mixed_P_and_D_verdicts_(observation)");
                 } else {
-                    let detail: Vec<_> = runs.iter().map(|(mp, _)| json!({"status": status_name(mp.status), "tags": mp.tags, "initial_point_inf_norm": problem::fj(mp.init_norm)})).collect();
+                    let detail: Vec<_> = runs.iter().map(|(mp, _)| json!({"status": status_name(mp.status), "tags": mp.tags, "initial_point_inf_norm": problem::fj(mp.init_norm), "objective_scale": mp.cscale, "equilibrate_enable": mp.equilibrated})).collect();
                     // mechanism: the majority class is the reference; a dissenting run whose *initial point* is
                     // astronomically larger than the data (the initial KKT solve returned garbage) is the
                     // recorded finding "initial_point_blowup"; any other dissent keeps the plain signature
                     let majority = ['S', 'P', 'D'].into_iter().max_by_key(|c| classes.iter().filter(|x| *x == c).count()).unwrap();
                     let data_scale = base.q.iter().chain(&base.b).chain(&base.A.nzval).chain(&base.P.nzval).fold(1.0f64, |m, v| m.max(v.abs()));
                     let all_blowup = runs.iter().filter(|(mp, _)| verdict_class(mp.status) != majority).all(|(mp, _)| mp.init_norm > 1e40 * data_scale);
-                    let sig = if all_blowup { "verdict_classes_differ:initial_point_blowup" } else { "verdict_classes_differ" };
+                    // second recorded mechanism: objective scaled by >= 1e4 or <= 1e-4 while equilibration is OFF
+                    let all_extreme = runs.iter().filter(|(mp, _)| verdict_class(mp.status) != majority).all(|(mp, _)| !mp.equilibrated && !(2e-4..=5e3).contains(&mp.cscale));
+                    let sig = if all_blowup {
+                        "verdict_classes_differ:initial_point_blowup"
+                    } else if all_extreme {
+                        "verdict_classes_differ:extreme_objective_scale_without_equilibration"
+                    } else {
+                        "verdict_classes_differ"
+                    };
                     ctx.violation("verdict_classes_differ", sig, wl, case, json!({"base": base.to_json(), "family": family, "runs": detail}));
                 }
             }
